@@ -1,4 +1,5 @@
 import SSVerif.Model.SearchScore
+import SSVerif.Model.LexCoverHyps
 import Driver.C02
 /-! driver sub-command `c02s`: reads the dumps written by `harness/h_c02` (the same stream `c02` reads), builds the
 real lextree (`XN`/`XR`/`XC` lines) as a `Search.LexTree`, runs the model's own unpruned scoring search
@@ -18,6 +19,9 @@ structure XCase where
   ph : Array Int := #[]
   /-- frame whose full state is wanted (`YDEND` marker of the harness) -/
   detail : Option Int := none
+  /-- `OPT fillerallrc 0`: the code under test has fix D110 (a filler leaves to every right context only when it has one phone);
+  inserted into the stream by tools/props/c02.py when `fsg_search_pnode_exit` no longer tests `fsg_model_is_filler` -/
+  fillerAllRc : Bool := true
 
 def feedX (x : XCase) (ws : List String) : XCase :=
   match ws with
@@ -26,6 +30,7 @@ def feedX (x : XCase) (ws : List String) : XCase :=
     | some s, some ids => { x with xr := x.xr.push (s, ids) }
     | _, _ => { x with c := { x.c with bad := "XR" :: x.c.bad } }
   | ["YDEND", t] => { x with detail := parseInt t }
+  | ["OPT", "fillerallrc", v] => { x with fillerAllRc := v != "0" }
   | "PH" :: t :: _ =>
     match parseInt t with
     | some t => { x with ph := x.ph.push t }
@@ -163,7 +168,7 @@ def finishX (x : XCase) : List String := Id.run do
   let lt := mkLexTree x
   let g : Fsg := { links := c.arcs.map (fun a => ⟨a.src, a.dst, a.logp, match a.wid with | some w => (w : Int) | none => -1⟩),
                    start := c.start, final := c.final, filler := [] }
-  let anyRc : Nat → Bool := fun w => match look c.words w with | some wd => wd.filler || wd.pron.length == 1 | none => false
+  let anyRc : Nat → Bool := fun w => match look c.words w with | some wd => (x.fillerAllRc && wd.filler) || wd.pron.length == 1 | none => false
   let E : Env := { lt, g, tmat := tmatF, sil := c.sil, anyRc }
   let T := c.frames.size
   if T == 0 then return [s!"case {c.id} error no-frames"]
@@ -234,7 +239,7 @@ def finishX (x : XCase) : List String := Id.run do
       match mkCert E insts with
       | none => ("nocert", "nocert", fo)
       | some C => (toString (coverB N L.toNet C), toString (emAgreeB E insts C), fo)
-  return (out.push s!"case {c.id} search {showO sc} exitframe {ef} T {T} pnodes {E.n} entries {s.table.length} data {dataOK} chains {lt.chainsEndB} tree {treeOpt} treeedges {N.edges.length} cover {cover} emagree {emag} flat {flatOpt} beamsearch {showO scB} beamexit {efB} tablesagree {decide (sb.s.table = s.table)}").toList
+  return (out.push s!"case {c.id} search {showO sc} exitframe {ef} T {T} pnodes {E.n} entries {s.table.length} data {dataOK} chains {lt.chainsEndB} tree {treeOpt} treeedges {N.edges.length} cover {cover} emagree {emag} flat {flatOpt} beamsearch {showO scB} beamexit {efB} tablesagree {decide (sb.s.table = s.table)} leafctx {SSVerif.LexCover.leafCtxB lt} fillersingle {!x.fillerAllRc || SSVerif.LexCover.fillerSingleB M} ctxrange {SSVerif.LexCover.ctxRangeB M}").toList
 
 partial def loop (h : IO.FS.Stream) (out : IO.FS.Stream) (x : XCase) : IO Unit := do
   let line ← h.getLine
